@@ -79,26 +79,31 @@ def sibling_spec(sp, rnd):
     import copy
     sp2 = copy.deepcopy(sp)
     nodes = {n['id']: n for n in sp2['nodes']}
-    cands = [k for k in sp2.get('conn', []) if sum(isinstance(x, str) for x in k['src'] + k['tgt']) >= 2]
+    def plain(x):
+        return isinstance(x, str) and nodes.get(x, {}).get('kind') == 'conn'
+    cands = [k for k in sp2.get('conn', []) if sum(plain(x) for x in k['src'] + k['tgt']) >= 2]
     if not cands:
         return None
     k = rnd.choice(cands)
-    ex = [p for p in k.get('exclude', []) if isinstance(p[0], str) and isinstance(p[1], str)]
+    ex = [p for p in k.get('exclude', []) if plain(p[0]) and plain(p[1])]
     if ex and rnd.random() < .6:
         s_, t_ = rnd.choice(ex)
         side, fixed, moved = ('tgt', s_, t_) if rnd.random() < .5 else ('src', t_, s_)
-        others = [x for x in k[side] if isinstance(x, str) and x != moved and
+        others = [x for x in k[side] if plain(x) and x != moved and
                   ([fixed, x] if side == 'tgt' else [x, fixed]) not in k['exclude']]
         if others:
+            # (the look-alike has to be there in BOTH graphs: first the graph with the look-alike and the exclusion
+            # where it was, then the same graph with the exclusion moved to the look-alike)
             o = rnd.choice(others)
             nodes[o]['deg'], nodes[o]['rep'] = copy.deepcopy(nodes[moved]['deg']), nodes[moved]['rep']
-            k['exclude'].remove([s_, t_])
-            k['exclude'].append([fixed, o] if side == 'tgt' else [o, fixed])
-            return sp2
-    plain = [x for x in k['src'] + k['tgt'] if isinstance(x, str)]
-    x = rnd.choice(plain)
+            sp3 = copy.deepcopy(sp2)
+            k3 = [c for c in sp3['conn'] if c['id'] == k['id']][0]
+            k3['exclude'].remove([s_, t_])
+            k3['exclude'].append([fixed, o] if side == 'tgt' else [o, fixed])
+            return [sp2, sp3]
+    x = rnd.choice([x for x in k['src'] + k['tgt'] if plain(x)])
     nodes[x]['rep'] = not nodes[x]['rep']
-    return sp2
+    return [sp2]
 
 
 def dv_followers(model):
@@ -730,17 +735,18 @@ def worker(task, col):
         if sp.get('conn') and len(col.violations) > n0:
             common.attribute_to_pattern_encoders(col, n0, lambda c, sp=sp: check_case(prop, sp, c, 'rerun', cap=cap))
         if prop in ('C01', 'C04') and sp.get('conn') and i % 3 == 0:
-            sp2 = sibling_spec(sp, gen.rng_for('sibling', prop, task['seed'], i))
-            if sp2 is not None:
+            prev = sp
+            for sp2 in common.guard(col, sibling_spec, sp, gen.rng_for('sibling', prop, task['seed'], i)) or []:
                 n0 = len(col.violations)
                 col.count('sibling_cases')
                 common.guard(col, check_case, prop, sp2, col, name + '_sibling', cap=cap)
                 if len(col.violations) > n0:
                     for v in col.violations[n0:]:
-                        v.setdefault('where', {})['sibling_after'] = S.digest(sp)[:12]
-                        v['pre_spec'] = sp    # replay decodes this graph first, in the same process
+                        v.setdefault('where', {})['sibling_after'] = S.digest(prev)[:12]
+                        v['pre_spec'] = prev    # replay decodes this graph first, in the same process
                     common.attribute_to_pattern_encoders(col, n0, lambda c, sp=sp2: check_case(prop, sp, c, 'rerun',
                                                                                                cap=cap))
+                prev = sp2
 
 
 RULES = {
